@@ -2,7 +2,9 @@
 
 L1  RemoteServer.run's finally block invokes terminate(timeout=1, force=True) on the child at an arbitrary position and on the
     context under an arbitrary key, SIGTERM if still alive, a failure of one not skipping the others (shared cone, props/C11.py).
-L2a the SIGTERM handler signals every live member of self.children (loop contract of install_handlers.<cleanup>).
+L2a the SIGTERM handler signals every live member of self.children (loop contract of install_handlers.<cleanup>) and nothing but
+    members of self.children and the server itself (frame obligation at every os.kill of the handler: a context helper that is
+    killed cannot terminate the workers it created, which is the only way they end - see L2b).
 L4  at EVERY statement boundary of run() (where the handler may run) a registered child on which terminate() has not been invoked
     yet is still a member of self.children (at-all-points obligation; also a loop invariant of both loops).
 L2b/L3 (context helpers and their workers exit through pipe EOF; the parent side turns a closed or answered data socket into a
@@ -20,7 +22,7 @@ ID = 'C12'
 MIN_OBLIGATIONS = 40
 TRUSTED = _c11.TRUSTED + ['os.kill(pid, SIGTERM) delivers SIGTERM; a process that neither blocks nor handles it ends (T4)']
 ASSUMPTIONS = _c11.ASSUMPTIONS + [
-    'L2b: context helper processes and the workers inside a context are not signalled by the handler; they end because PersistentProcessWorker.do_work leaves its loop on pipe EOF when the server dies and RemoteContextWorker.do_work then runs _create_worker(_clean=True) (design probe P-17 observed all descendants gone within 3 s); not under contract in this round',
+    'L2b: context helper processes and the workers inside a context are not signalled by the handler (that much is checked: L2a frame obligation); they end because PersistentProcessWorker.do_work leaves its loop on pipe EOF when the server dies and RemoteContextWorker.do_work then runs _create_worker(_clean=True) (design probe P-17 observed all descendants gone within 3 s); not under contract in this round',
     'L3: that each parent-side worker becomes dead with has_error True (WorkerTerminatedError if the child could report) is the composition of the server-side forced terminate answering/closing the data socket with C10 and C01.L2; the server-side RemoteWorker.terminate is in the C04 cone',
     '"shortly afterwards" and OS process-table facts are T4/T9',
 ]
@@ -28,13 +30,42 @@ MUTANTS = [m for m in _c11.MUTANTS if 'terminate' in m[3] or 'signalled' in m[3]
     ('pyworkers/remote_server.py', "            for child in self.children:\n                if child.is_alive():\n                    os.kill(child.pid, signal.SIGTERM)\n\n            self.children.clear()",
      "            self.children.clear()\n            for child in self.children:\n                if child.is_alive():\n                    os.kill(child.pid, signal.SIGTERM)\n", 'SIGTERM handler forgets the children before signalling them'),
     ('pyworkers/remote_server.py', "            self.children.clear()\n            self.contexts.clear()\n\n        logger.info('Remote server closed')", "        logger.info('Remote server closed')", None),
+    ('pyworkers/remote_server.py', "            self.children.clear()\n            signal.signal(signal.SIGTERM, signal.SIG_DFL)",
+     "            for ctx in self.contexts.values():\n                if ctx.is_alive():\n                    os.kill(ctx.pid, signal.SIGTERM)\n            self.children.clear()\n            signal.signal(signal.SIGTERM, signal.SIG_DFL)",
+     'SIGTERM handler also kills the context helpers (their workers are orphaned)'),
 ]
 MUTANTS = [m for m in MUTANTS if m[3] is not None]
+
+
+IS_CHILD_PID = z3.Function('is_child_pid', Val, smt.Bool)
+OWN_PID = Val.v_str(z3.IntVal(smt.str_code('<pid of the server>')))
+
+
+def pid_of(key):
+    return Val.v_tup(smt.mk_list([Val.v_str(z3.IntVal(smt.str_code('<pid of>'))), key]))
 
 
 def build(ex):
     server.install(ex)
     run = _c11.build_run_contract(ex, 'C12')
+    # a registered context object gives access to its helper process
+    ex.abs_classes['RCtx'].attrs['_worker'] = lambda I, o: VAbs('RCtx', Val.v_tup(smt.mk_list([Val.v_str(z3.IntVal(smt.str_code('<helper process of>'))), o.key])))
+
+    def kill_checked(ex_, a, k):
+        pid = lower(a[0], ex_)
+        ex_.oblige('frame', z3.Or(pid == OWN_PID, IS_CHILD_PID(pid)),
+                   'the SIGTERM handler signals only members of self.children and the server itself (a context helper that is killed cannot '
+                   'terminate the workers it created: they would outlive the server)', ex_.ghost.get('__cur_node__'),
+                   key=('kill-frame', getattr(ex_.ghost.get('__cur_node__'), 'lineno', 0)))
+        return server.os_kill(ex_, a, k)
+
+    def children_bound(ex_, fr):
+        """is_child_pid is by definition membership of the process in self.children as the handler found it: instantiated at the element the loop binds"""
+        env = ex_.ghost['__specenv__']
+        seq, i = fr.locals.get('__seq__'), fr.locals.get('__i__')
+        if seq is None or i is None:
+            return
+        ex_.assume(z3.Implies(seq.e == env['children0'].e, IS_CHILD_PID(pid_of(Val.vakey(seq.e[i.e])))))
 
     def closure_env(ex_, frame):
         env = {}
@@ -45,6 +76,16 @@ def build(ex):
         a['children'] = ch
         ex_.ghost['__specenv__'] = env
         env['children0'] = VSeq(ex_.heap[ch.addr].seq)
+        # one registered context (run() has set self.contexts): neither the context nor its helper process is a member of self.children
+        ctxkey = Val.v_str(z3.IntVal(smt.str_code('<a registered context>')))
+        ctx = VAbs('RCtx', ctxkey)
+        helper = ex_.abs_classes['RCtx'].attrs['_worker'](ex_.interp, ctx)
+        for o in (ctx, helper):
+            server.S(ex_, 'RCtx', o, 'alive', ex_.fresh('ctx_alive', smt.Bool))
+            ex_.assume(z3.Not(IS_CHILD_PID(pid_of(o.key))))
+        a['contexts'] = ex_.alloc(HDict({'<ctx id>': ctx}))
+        ex_.ext_models['os.getpid'] = lambda ex2, a2, k2: VSym(OWN_PID)
+        ex_.ext_models['os.kill'] = kill_checked
         return {'self': env['self']}
 
     def signalled(c):
@@ -80,21 +121,21 @@ def build(ex):
         RS + '.install_handlers.<cleanup>', lid='L2a', name='C12.L2a the SIGTERM handler signals every live member of self.children before re-raising the signal',
         closure_env=closure_env, self_class=RS, params={'args': ('const', VTuple([]))},
         ensures=[signalled], raises={}, raises_only=[],
-        loops={0: Loop(invariant=[loop_inv, same_list], variant='__n__ - __i__', modifies=['ghost:killed_pids', 'abs:RCtx.alive'])},
+        loops={0: Loop(invariant=[loop_inv, same_list], variant='__n__ - __i__', modifies=['ghost:killed_pids', 'abs:RCtx.alive'], on_bind=children_bound)},
         options={'recv_closed_check': False})
     return [(run, None), (L2a, None)]
 
 
 def replay(ob, repo):
     from pyvc.native import run_script
-    r = run_script('c12_native.py', {}, repo, timeout=150)
+    r = run_script('c12_native.py', {'lemma': ob.get('lemma', ''), 'kind': ob.get('kind', '')}, repo, timeout=200)
     return bool(r.get('violates')), r
 
 
 def replay_file(path, repo):
     import json
     from pyvc.native import run_script
-    r = run_script('c12_native.py', {}, repo, timeout=150)
+    r = run_script('c12_native.py', {}, repo, timeout=200)
     print(json.dumps(r, indent=1, default=str))
     if r.get('violates'):
         print(f'VIOLATION property=C12 replay={path}')
